@@ -132,18 +132,18 @@ def tie(nodes, spec):
 
 
 # ---------------------------------------------------------------- the check
-def cfg_nodes(nodeset, maxnodes, maxnone, lat, factors="{1, 2, 3}", nks="{2, 3, 4}", invs="InvsDef"):
+def cfg_nodes(nodeset, maxnodes, maxnone, lat, factors="{1, 2, 3}", nks="{2, 3, 4}", invs="InvsDef", full=True):
     inv = ["LoopIsOperator", "InvNodesInOrder", "InvLabelsExact", "InvUniform", "InvBreaksExact", "InvLength", "InvPathOK", "InvKline",
            "InvRound", "InvRefinedNodes"]
     return ("SPECIFICATION Spec\nCONSTANTS\n"
-            f"  NodeSet <- {nodeset}\n  MaxNodes = {maxnodes}\n  MaxNone = {maxnone}\n  NKS = {nks}\n  INVS <- {invs}\n  LatA <- {lat}\n  Factors = {factors}\n"
+            f"  NodeSet <- {nodeset}\n  MaxNodes = {maxnodes}\n  MaxNone = {maxnone}\n  NKS = {nks}\n  INVS <- {invs}\n  LatA <- {lat}\n  Factors = {factors}\n  FullProduct = {'TRUE' if full else 'FALSE'}\n"
             + "".join(f"INVARIANT {i}\n" for i in inv) + "CHECK_DEADLOCK FALSE\n")
 
 
-def cfg_refine(points, maxlen, wrong=False, nodepaths="NodePathsDef"):
+def cfg_refine(points, maxlen, wrong=False, nodepaths="NodePathsDef", compose="{1, 2, 3}"):
     inv = ["InvKeeps", "InvIdentity", "InvKline"] + ([] if wrong else ["LoopIsOperator", "InvCompose"])
     return ("SPECIFICATION Spec\nCONSTANTS\n"
-            f"  Points <- {points}\n  MaxLen = {maxlen}\n  Factors = {{1, 2, 3}}\n  LatA <- LatSkew\n  NodePaths <- {nodepaths}\n"
+            f"  Points <- {points}\n  MaxLen = {maxlen}\n  Factors = {{1, 2, 3}}\n  ComposeWith = {compose}\n  LatA <- LatSkew\n  NodePaths <- {nodepaths}\n"
             f"  RefineAcrossBreaks = {'TRUE' if wrong else 'FALSE'}\n"
             + "".join(f"INVARIANT {i}\n" for i in inv) + "CHECK_DEADLOCK FALSE\n")
 
@@ -436,7 +436,7 @@ def check(pid, tier):
     # ---------------- spec: from_nodes
     counts = {}
     keep = []
-    configs = [("c29_nodes", cfg_nodes("NodeSetTiny", 3, 1, "LatSkew", factors="{2}", nks="{2, 4}", invs="InvsTwo"), "LatSkew", True)]
+    configs = [("c29_nodes", cfg_nodes("NodeSetTiny", 3, 1, "LatSkew", factors="{2}", nks="{2, 4}", invs="InvsTwo", full=False), "LatSkew", True)]
     if thorough:
         configs = [("c29_nodes", cfg_nodes("NodeSetQuick", 3, 2, "LatSkew"), "LatSkew", True),
                    ("c29_nodes_ortho", cfg_nodes("NodeSetTiny", 4, 1, "LatOrtho", nks="{2, 4}"), "LatOrtho", True),
@@ -461,7 +461,7 @@ def check(pid, tier):
     # ---------------- spec: get_refined (+ getKline)
     counts = {}
     name = "c29_refine"
-    st = ftable.enumerate_states("MC_PathRefine.tla", cfg_refine("PointsMid", 4) if thorough else cfg_refine("PointsQuick", 3), name, workers=W, timeout=3000)
+    st = ftable.enumerate_states("MC_PathRefine.tla", cfg_refine("PointsMid", 4) if thorough else cfg_refine("PointsQuick", 3, compose="{2}"), name, workers=W, timeout=3000)
     if not ftable.spec_violation(rep, st, name):
         tlc.check_not_vacuous(st, ["KeepBreak", "Subdivide", "LastPoint"], name)
         rep.add_tlc(name, st)
